@@ -492,6 +492,16 @@ def _plain_enums(modules) -> set:
     return out
 
 
+class _fold_arith(ast.NodeTransformer):
+    """`0 + 1` is `1` (integer literals only)"""
+    def visit_BinOp(self, node):
+        self.generic_visit(node)
+        if isinstance(node.op, (ast.Add, ast.Sub)) and all(isinstance(x, ast.Constant) and isinstance(x.value, int) and not isinstance(x.value, bool) for x in (node.left, node.right)):
+            v = node.left.value + node.right.value if isinstance(node.op, ast.Add) else node.left.value - node.right.value
+            return ast.copy_location(ast.Constant(v), node)
+        return node
+
+
 def _fold_const_test(t):
     """True / False when the test is decided by constants alone, else None."""
     if isinstance(t, ast.Constant):
@@ -1309,6 +1319,8 @@ def fold_constant_tests(modules, known, rep):
             new = [x for x in new if not isinstance(x, ast.Pass)] or new[:1]
             if len(new) != len(stmts) or any(a is not b for a, b in zip(new, stmts)):
                 stmts[:] = new or [ast.Pass()]
+        if getattr(fn, "_inl_names", None):
+            fn.body = [_fold_arith().visit(st) for st in fn.body]
         ast.fix_missing_locations(fn)
 
 
@@ -1818,8 +1830,8 @@ def _pure(e, stable) -> bool:
         return all(_pure(x, stable) for x in e.elts)
     if isinstance(e, ast.Attribute):  # Enum member; or a read of the object's own attribute (state: see _reads_state / _no_effect_between)
         return isinstance(e.value, ast.Name) and (e.value.id[:1].isupper() or e.value.id == "self")
-    if isinstance(e, ast.Subscript) and isinstance(e.value, ast.Name) and e.value.id.startswith("row__") and isinstance(e.slice, ast.Constant):
-        return e.value.id in stable  # a position of a row local introduced by N27 (only ever read by position)
+    if isinstance(e, ast.Subscript) and isinstance(e.value, ast.Name) and (e.value.id.startswith("row__") or e.value.id in _PRIVATE_ROWS) and isinstance(e.slice, ast.Constant):
+        return e.value.id in stable  # a position of a row local (introduced by N27, or a row just fetched from a cursor): only ever read by position
     if isinstance(e, ast.Compare):
         return _pure(e.left, stable) and all(_pure(c, stable) for c in e.comparators)
     if isinstance(e, ast.BoolOp):
@@ -1837,6 +1849,29 @@ def _pure(e, stable) -> bool:
     return False
 
 
+_PRIVATE_ROWS: set = set()
+
+
+def _private_rows(fn) -> set:
+    """locals that hold a row just fetched from a DB cursor (loop variable over a cursor / fetchall(), `next(cursor)`, fetchone()) and are
+    only ever read by constant position: a fresh tuple nothing else refers to"""
+    cand = set()
+    for n in ast.walk(fn):
+        if isinstance(n, ast.For) and isinstance(n.target, ast.Name) and re.search(r"cursor|fetchall\(|fetchmany\(", ast.unparse(n.iter)):
+            cand.add(n.target.id)
+        if isinstance(n, ast.Assign) and len(n.targets) == 1 and isinstance(n.targets[0], ast.Name) and isinstance(n.value, ast.Call) \
+                and re.fullmatch(r"next\(.*cursor.*\)|.*\.fetchone\(\)", ast.unparse(n.value)):
+            cand.add(n.targets[0].id)
+    out = set()
+    for c in cand:
+        uses = [x for x in ast.walk(fn) if isinstance(x, ast.Name) and x.id == c and isinstance(x.ctx, ast.Load)]
+        subs = [x for x in ast.walk(fn) if isinstance(x, ast.Subscript) and isinstance(x.value, ast.Name) and x.value.id == c and isinstance(x.slice, ast.Constant)
+                and isinstance(x.ctx, ast.Load)]
+        if uses and len(uses) == len(subs):
+            out.add(c)
+    return out
+
+
 def propagate_fresh_locals(modules, known, rep):
     kl = known.get("locals") or {}
     stores, calls, bases = _class_attr_stores(modules)
@@ -1844,6 +1879,8 @@ def propagate_fresh_locals(modules, known, rep):
         key = f"{rel}::{sc}.{fn.name}"
         if key not in kl:
             continue
+        _PRIVATE_ROWS.clear()
+        _PRIVATE_ROWS.update(_private_rows(fn))
         known_locals = set(kl[key])  # dict name -> [stores, loads]
         if any(isinstance(x, FUNC) and x is not fn for x in ast.walk(fn)):
             continue
@@ -1863,7 +1900,8 @@ def propagate_fresh_locals(modules, known, rep):
         for name in sorted(val):
             if name in known_locals or name in params or count.get(name) != 1:
                 continue
-            v, defn = val[name], node_of[name]
+            defn = node_of[name]
+            v = defn.value  # (read now: an earlier substitution of this pass may have rewritten it)
             ok = False
             why = ""
             if isinstance(v, ast.Attribute) and isinstance(v.value, ast.Name) and v.value.id == "self" and sc and "self" not in stored_params:
@@ -1925,6 +1963,17 @@ def propagate_fresh_locals(modules, known, rep):
                         stmts.append(ast.copy_location(ast.Pass(), defn))
 
             class S(ast.NodeTransformer):
+                def visit_Subscript(self, node):
+                    nonlocal uses
+                    # `t[k]` of a tuple display of plain names / constants is its k-th element
+                    if isinstance(node.value, ast.Name) and node.value.id == name and isinstance(node.ctx, ast.Load) and isinstance(v, ast.Tuple) \
+                            and isinstance(node.slice, ast.Constant) and isinstance(node.slice.value, int) and -len(v.elts) <= node.slice.value < len(v.elts) \
+                            and all(isinstance(e_, (ast.Name, ast.Constant)) for e_ in v.elts):
+                        uses += 1
+                        return ast.copy_location(copy.deepcopy(v.elts[node.slice.value]), node)
+                    self.generic_visit(node)
+                    return node
+
                 def visit_Name(self, node):
                     nonlocal uses
                     if node.id == name and isinstance(node.ctx, ast.Load):
@@ -1937,8 +1986,8 @@ def propagate_fresh_locals(modules, known, rep):
 
 def _reads_state(e) -> bool:
     for x in ast.walk(e):
-        if isinstance(x, ast.Subscript) and isinstance(x.value, ast.Name) and x.value.id.startswith("row__") and isinstance(x.slice, ast.Constant):
-            continue  # a position of a private row local (N27): nothing else refers to that object
+        if isinstance(x, ast.Subscript) and isinstance(x.value, ast.Name) and (x.value.id.startswith("row__") or x.value.id in _PRIVATE_ROWS) and isinstance(x.slice, ast.Constant):
+            continue  # a position of a private row local (N27 / fetched row): nothing else refers to that object
         if isinstance(x, (ast.Attribute, ast.Subscript)) and not (isinstance(x, ast.Attribute) and isinstance(x.value, ast.Name) and x.value.id[:1].isupper()):
             return True
         if isinstance(x, ast.Compare) and any(isinstance(o, (ast.In, ast.NotIn)) for o in x.ops) and not all(
